@@ -170,7 +170,7 @@ def sweep_runs(pair_index: int, pair: dict, vseed: int, max_points: int) -> list
     recs = []
     a, b = pair["ops"]
     for first_tid, (x, y) in enumerate(((a, b), (b, a))):
-        steps = runner.solo(x)["line"]
+        steps = runner.steps(x, "line")
         stride = max(1, -(-steps // max_points))
         offset = (pair_index + first_tid) % stride
         for k in range(1 + offset, steps + 1, stride):
@@ -282,8 +282,10 @@ def _family(target) -> str:
 
 
 def est_steps(rec: dict) -> int:
+    if rec["config"]["policy"][0] != "pct":
+        return 0
     g = rec["config"]["granularity"]
-    return sum(runner.solo(op)[g] for th in rec["threads"] for op in th)
+    return sum(runner.steps(op, g) for th in rec["threads"] for op in th)
 
 
 def execute_record(rec: dict, keep_events: bool = False):
